@@ -25,14 +25,18 @@ import itertools
 import types
 import warnings
 
+from fractions import Fraction
+
 import numpy as rnp
 import sympy
 
 from pyvc.core import ctx
 from pyvc.unit import unit, Unit
-from pyvc.npshim import Shim
+from pyvc.npshim import Shim, sym_real_array
+from pyvc.phase import linform
 
 F_ORB = "wannierberri/symmetry/orbitals.py"
+F_DW = "wannierberri/symmetry/Dwann.py"
 TOL = 1e-9
 
 
@@ -240,6 +244,86 @@ def _rotator(U):
     U.run(body, check_feasible=False)
 
 
+# ------------------------------------------------------------------ Wannier representation: Dwann.get_on_points for every k
+@unit("C21", "Dwann.get_on_points: a block permutation of the orbital matrices with unit-modulus phases -- unitary for every k", expect_min=3,
+      scope="shape:orbits of 3 points, every site permutation, 2 orbitals per site, spinless; symbolic k; 3 operations (proper, improper with time reversal, with a translation)")
+def _dwann(U):
+    from pyvc.phase import PhSum, phsum_eq
+    from pyvc.core import conc
+
+    def sround(x):
+        """np.round on an array whose symbolic entries are in fact numerals (k-dependence cancelled)"""
+        out = rnp.empty(rnp.shape(x), dtype=object)
+        for i in rnp.ndindex(*rnp.shape(x)):
+            v = x[i]
+            if isinstance(v, (int, float, rnp.generic)):
+                out[i] = round(float(v))
+                continue
+            lf = linform(v)
+            if set(lf) - {1}:
+                raise AssertionError("kpt - symop(kptirr) depends on k: not a reciprocal lattice vector")
+            out[i] = round(float(lf.get(1, 0)))
+        return out
+    NP = Shim(overrides=dict(round=sround))
+    f = U.fn(F_DW, "Dwann.get_on_points", globs=dict(np=NP), model=False, rewrite_comps=False)
+
+    def body():
+        import itertools as it
+        perm = list(it.permutations(range(3)))[ctx().choose(6, "site permutation of the operation")]
+        iop = ctx().choose(3, "operation")
+        Sk = [rnp.array([[0, 1, 0], [-1, 0, 0], [0, 0, 1]]), -rnp.eye(3, dtype=int), rnp.array([[1, 0, 0], [0, -1, 0], [0, 0, -1]])][iop]
+        k = sym_real_array("k", (3,))
+        op = types.SimpleNamespace(transform_k=lambda kk: rnp.dot(kk, Sk))          # external contract (irrep): a linear integer map of the reduced k (sign of time reversal included)
+        th = [0.3, 1.1, -2.0]
+        rot = rnp.array([[[[rnp.cos(t), -rnp.sin(t)], [rnp.sin(t), rnp.cos(t)]]] for t in th])      # one orthogonal block per site (for this operation)
+        T = rnp.array([[[1, 0, -2]], [[0, 0, 0]], [[-1, 3, 1]]])
+        me = types.SimpleNamespace(spacegroup=types.SimpleNamespace(symmetries=[op]), orbit=[0, 1, 2], atommap=rnp.array(perm).reshape(3, 1), T=T, rot_orb=rot, num_wann=6, num_orbitals=2)
+        G = rnp.array([2, -1, 0])
+        k1 = rnp.dot(k, Sk)
+        D = f(me, k, k1 + G, 0)
+        U.ensure("shape (num_wann, num_wann)", tuple(D.shape) == (6, 6))
+        ok_blocks, ok_val = True, True
+        for ip in range(3):
+            for jp in range(3):
+                blk = D[2 * jp:2 * jp + 2, 2 * ip:2 * ip + 2]
+                if jp != perm[ip]:
+                    ok_blocks = ok_blocks and all(isinstance(v, (int, float, complex)) and v == 0 for v in blk.flat)
+                else:
+                    from pyvc.phase import Ph
+                    form = {}
+                    for c in range(3):
+                        for d in range(3):
+                            if Sk[c, d] * T[ip, 0, d]:
+                                form["k_%d" % c] = form.get("k_%d" % c, 0) + Fraction(int(Sk[c, d] * T[ip, 0, d]))
+                    for a in range(2):
+                        for b in range(2):
+                            dv = PhSum.of(blk[a, b]) - PhSum.of(Ph(form)) * float(rot[ip, 0, a, b])
+                            ok_val = ok_val and all(conc(v.re) is not None and conc(v.im) is not None and abs(float(conc(v.re))) < 1e-12 and abs(float(conc(v.im))) < 1e-12 for v in dv.t.values())
+        U.ensure("site ip is mapped onto its image atommap[ip] and nowhere else (every other block is exactly zero)", ok_blocks)
+        U.ensure("the block is e^{2 pi i symop(k).T[ip]} times the site's orbital matrix", ok_val)
+        ok_u = True
+        for a in range(6):
+            for b in range(6):
+                tot = PhSum({})
+                for c in range(6):
+                    x, y = D[a, c], D[b, c]
+                    if (isinstance(x, (int, float, complex)) and x == 0) or (isinstance(y, (int, float, complex)) and y == 0):
+                        continue
+                    tot = tot + PhSum.of(x) * PhSum.of(y).conj()
+                want = PhSum.of(1.0) if a == b else PhSum({})
+                d_ = tot - want            # concrete float coefficients (cos^2 + sin^2 to rounding): every coefficient of every character below 1e-12
+                ok_u = ok_u and all(conc(v.re) is not None and conc(v.im) is not None and abs(float(conc(v.re))) < 1e-12 and abs(float(conc(v.im))) < 1e-12 for v in d_.t.values())
+        U.ensure("D D^dagger = 1 for every k (orthogonal orbital blocks, a bijective site map, unit-modulus phases)", ok_u)
+        try:
+            f(me, k, k1 + rnp.array([0.5, 0, 0]), 0)
+            refused = False
+        except AssertionError:
+            refused = True
+        U.ensure("a k-point that is not the image of the irreducible one up to a reciprocal lattice vector is refused", refused)
+    U.run(body, check_feasible=False)
+    U.external("irrep SymmetryOperation.transform_k: linear integer map on reduced k; orbital blocks orthogonal (units above); atommap a permutation (checked against the geometry by the stand-in and by C20's units)")
+
+
 # ------------------------------------------------------------------ bounded stand-in: installed code, numeric rotations
 def _real_rot(rng, n):
     from scipy.spatial.transform import Rotation
@@ -267,6 +351,36 @@ def _real_rot(rng, n):
         cases += 1
         if not rnp.allclose(D @ D.T, rnp.eye(3), atol=1e-9):
             fails.append(dict(input=dict(shell="sp2", rotation="C4x", case="hybrid-sp2-C4x/not-orthogonal"), clause="rot_orb of a hybrid is orthogonal for every rotation", failed=["D D^T = %s" % rnp.round(D @ D.T, 6).tolist()]))
+        # the Wannier representation on real structures: unitary for every operation at random k, centres mapped onto their images
+        from wannierberri.symmetry.Dwann import Dwann
+        from irrep import __version__ as irrep_version
+        from irrep.spacegroup import SpaceGroup
+        from packaging import version
+        for sname, lat, pos, typ, orb, spinor in (("orthorhombic two-site p orbit", rnp.diag([1.0, 1.2, 1.5]), [[0.2, 0, 0], [-0.2, 0, 0]], [0, 0], "p", False),
+                                                   ("hexagonal two-site s;p orbit, spinor", rnp.array([[1, 0, 0], [-0.5, 0.8660254037844386, 0], [0, 0, 1.6]]), [[1 / 3, 2 / 3, 0.1], [2 / 3, 1 / 3, 0.1]], [0, 0], "s;p", True),
+                                                   ("tetragonal four-site d orbit", rnp.diag([1.0, 1.0, 1.4]), [[0.2, 0.1, 0.3], [-0.1, 0.2, 0.3], [-0.2, -0.1, 0.3], [0.1, -0.2, 0.3]], [0, 0, 0, 0], "d", False)):
+            if version.parse(irrep_version) < version.parse("2.2.0"):
+                sg = SpaceGroup(cell=(lat, rnp.array(pos), rnp.array(typ)), magmom=None, include_TR=True, spinor=spinor)
+            else:
+                sg = SpaceGroup.from_cell(real_lattice=lat, positions=rnp.array(pos), typat=rnp.array(typ), magmom=None, include_TR=True, spinor=spinor)
+            dw = Dwann(sg, rnp.array(pos), orbital=orb, orbitalrotator=om.OrbitalRotator(), basis_list=[rnp.eye(3)] * len(pos), spinor=spinor)
+            bad = []
+            rs = rnp.random.RandomState(rng.randint(0, 10 ** 6))
+            for isym, g in enumerate(sg.symmetries):
+                k = rs.rand(3) - 0.5
+                G = rs.randint(-2, 3, size=3)
+                D = dw.get_on_points(k, g.transform_k(k) + G, isym)
+                if D.shape != (dw.num_wann, dw.num_wann) or not rnp.allclose(D @ D.conj().T, rnp.eye(dw.num_wann), atol=1e-9):
+                    bad.append("operation %d: D_wann is not unitary" % isym)
+                for ip, p_ in enumerate(dw.orbit):
+                    img = rnp.array(g.rotation) @ rnp.array(p_) + rnp.array(g.translation)
+                    jp = dw.atommap[ip, isym]
+                    d_ = img - rnp.array(dw.orbit[jp])
+                    if not rnp.allclose(d_, rnp.round(d_), atol=1e-6) or not (rnp.allclose(rnp.round(d_), dw.T[ip, isym]) or rnp.allclose(rnp.round(d_), -dw.T[ip, isym])):
+                        bad.append("operation %d: site %d is not mapped onto its symmetry image (up to the recorded lattice vector)" % (isym, ip))
+            cases += 1
+            if bad:
+                fails.append(dict(input=dict(structure=sname, orbital=orb, spinor=spinor), clause="Wannier representation matrices are unitary and map each centre onto its symmetry image", failed=bad[:4]))
     return dict(cases=cases, failures=fails, distinct=cases)
 
 
@@ -279,4 +393,4 @@ def _replay_real(mv, ob):
 
 Unit("C21", "shell matrices on random rotations of O(3) [real code]", concrete=_real_rot,
      bounded_desc="installed Orbitals.rot_orb for s, p, d, f on 3 (quick) / 10 (thorough) pairs of random rotations (every second pair improper): orthogonality and the composition law (the only coverage of the f-shell composition law); "
-                  "the recorded known finding K3 (sp2 under C4x)")
+                  "the recorded known finding K3 (sp2 under C4x); real Dwann objects on three structures (p, s;p with spinors, d): unitary at random k for every operation, sites mapped onto their images")
